@@ -530,7 +530,7 @@ def make_agent_class():
                     run.res.probes["agent.place_pending.%s" % ("ok" if r else "refused")] += 1
                     return
                 if op == "place_again":
-                    if a.get("live_trade_only") and order.trade.status.name == "COMPLETE":
+                    if a.get("live_trade_only") and order.trade.status.name == "COMPLETE" and order.id not in market.blotter:
                         run.res.probes["agent.place_again.skipped_completed_trade"] += 1
                         return  # placing on a COMPLETED trade is outside C10's quantifier (see tools/parity_reuse.sh)
                     r = txn.place_order(order, **kw) if txn is not market else txn.place_order(order, client=self._client(), **kw)
